@@ -1,6 +1,6 @@
 from __future__ import annotations
 import typing
-from types import CodeType
+from types import CodeType, FunctionType
 
 import sympy
 from structlog import get_logger
@@ -75,9 +75,18 @@ def get_scheme(scheme: str) -> scheme_func:
             stacklevel=3,
         )
 
-    # Replace the name of the function
-    func.__code__ = func.__code__.replace(co_name=scheme)
-    return func
+    # Return a copy of the function under the requested name. The module level function
+    # is left untouched, so that a scheme obtained earlier keeps the name it was asked for
+    new_func = FunctionType(
+        func.__code__.replace(co_name=scheme),
+        func.__globals__,
+        name=scheme,
+        argdefs=func.__defaults__,
+        closure=func.__closure__,
+    )
+    new_func.__kwdefaults__ = func.__kwdefaults__
+    new_func.__doc__ = func.__doc__
+    return new_func
 
 
 def list_schemes() -> list[str]:
